@@ -162,7 +162,7 @@ def extra_calls():
     return items
 
 
-def catalogue(type_cases, limit=None, salt="c"):
+def catalogue(type_cases, limit=None, salt="c", by_dim=True):
     """Call list: the executed states of Types.tla (one sampled system pairing each) plus extra_calls()."""
     items = []
     for tc in type_cases:
@@ -173,11 +173,11 @@ def catalogue(type_cases, limit=None, salt="c"):
         items.append({"name": tc["m"], "tc": tc, "sa": sa, "sb": sb,
                       "backend": "+".join(sorted({tc["a"][0], tc["b"][0]} - {"none"}))})
     if limit and len(items) > limit:
-        # every (method, backend of the first operand) at least once - each backend has its own operator / ufunc table -
+        # every (method, backend and dimension of the first operand) at least once - each backend has its own tables and wrappers -
         # then an even sample of the rest
         must, rest = {}, []
         for it in items:
-            key = (it["name"], it["tc"]["a"][0])
+            key = (it["name"], it["tc"]["a"][0], it["tc"]["a"][2] if by_dim else 0)      # the wrappers are per backend and per dimension
             if key not in must:
                 must[key] = it
             else:
@@ -335,7 +335,7 @@ def thread_run(type_cases, limit, nthreads=16, repeats=1):
     and each thread's events carry per-thread sequence numbers."""
     import sys
 
-    items = [it for it in catalogue(type_cases, limit, salt="threads")]
+    items = [it for it in catalogue(type_cases, limit, salt="threads", by_dim=False)]
     with warnings.catch_warnings():
         warnings.simplefilter("ignore")
         seq_events, seq_results = run_session(items, tid=100, thread="sequential", with_results=True)
@@ -385,7 +385,7 @@ def thread_hammer(type_cases, nthreads=8, reps=4, with_poisoned=True):
     read race-free and a change is attributed to the item.  Returns (mismatches, number of items, calls)."""
     import sys
 
-    items = [it for it in catalogue(type_cases, 1, salt="hammer") if with_poisoned or not it["name"].startswith("poisoned:")]
+    items = [it for it in catalogue(type_cases, 1, salt="hammer", by_dim=with_poisoned) if with_poisoned or not it["name"].startswith("poisoned:")]
     with warnings.catch_warnings():
         warnings.simplefilter("ignore")
         _, seq_results = run_session(items, tid=200, thread="sequential", with_results=True)
@@ -425,7 +425,101 @@ def thread_hammer(type_cases, nthreads=8, reps=4, with_poisoned=True):
                 t.join()
         finally:
             sys.setswitchinterval(old)
-    return mismatches, len(items), len(items) * nthreads * reps
+    pm, pitems, pcalls = thread_params(nthreads, reps)
+    return mismatches + pm, len(items) + pitems, len(items) * nthreads * reps + pcalls
+
+
+def order_run(type_cases, limit=1):
+    """No call leaves a trace that a later call can see: the catalogue (plus the same stored numbers offered in every
+    coordinate system, which is what a value-keyed cache would confuse) is executed forwards and then backwards in one
+    process; every call must return what it returned the first time."""
+    import vector
+
+    items = [it for it in catalogue(type_cases, limit, salt="order") if not it["name"].startswith("poisoned:")]
+    raw4 = [1.5, 0.25, 0.5, 2.0]
+    for n in (2, 3, 4):
+        for sig in coords.signatures(n):
+            for flavor in ("generic", "momentum"):
+                names = coords.field_names(sig)
+                if flavor == "momentum":
+                    names = [coords.MOM_NAMES[x] for x in names]
+                kw = dict(zip(names, raw4[:n]))
+                mk = (lambda kw=kw: (vector.obj(**kw), None))
+                for nm, call in (("same-numbers:__array__", lambda A, B: numpy.asanyarray(A)), ("same-numbers:asarray", lambda A, B: numpy.asarray(A)),
+                                 ("same-numbers:rho+eta", lambda A, B: (A.rho, A.phi, A.x)), ("same-numbers:to_xy", lambda A, B: A.to_xy()),
+                                 ("same-numbers:repr", lambda A, B: repr(A)), ("same-numbers:hash-free-eq", lambda A, B: A == A)):
+                    items.append({"name": nm, "build": mk, "call": call, "backend": "obj"})
+    with warnings.catch_warnings():
+        warnings.simplefilter("ignore")
+        _, first = run_session(items, tid=300, thread="forward", with_results=True)
+        _, back = run_session(list(reversed(items)), tid=301, thread="backward", with_results=True)
+        _, again = run_session(items, tid=302, thread="forward-again", with_results=True)
+    back = list(reversed(back))
+    mism = []
+    for j, it in enumerate(items):
+        for label, other in (("backward", back[j]), ("second forward pass", again[j])):
+            if other != first[j] and len(mism) < 50:
+                mism.append({"thread": -2, "call": it["name"], "backend": it["backend"], "what": "result depends on the calls made before it (" + label + ")",
+                             "got": other[:200], "want": first[j][:200]})
+    return mism, len(items)
+
+
+def thread_params(nthreads=8, reps=4):
+    """The same operation on shared operands, each thread with its OWN scalar arguments (factor, angle, beta, tolerances,
+    a single-object operand): every thread must get the result it gets when it runs alone (per-call state must not live
+    on anything the threads share)."""
+    import sys
+    import awkward as ak
+    import vector
+
+    builders = {}
+    for sig in [("xy", "z", "t"), ("rhophi", "eta", "tau")]:
+        for backend in ("obj", "np", "akarr", "akrec"):
+            for flavor in ("generic", "momentum"):
+                builders[(backend, flavor, sig)] = typesx.build((backend, flavor, 4), sig, 0)
+    ops = {
+        "scale": lambda A, k: A.scale(1.5 + k), "mul": lambda A, k: A * (2.0 + k), "div": lambda A, k: A / (1.0 + k),
+        "rotateZ": lambda A, k: A.rotateZ(0.1 * (k + 1)), "rotateX": lambda A, k: A.rotateX(0.2 * (k + 1)),
+        "boostZ": lambda A, k: A.boostZ(beta=0.05 * (k + 1)), "boostX-gamma": lambda A, k: A.boostX(gamma=1.0 + 0.1 * (k + 1)),
+        "isclose": lambda A, k: A.isclose(A.scale(1.0 + 0.01 * k), rtol=0.005 * (k + 1), atol=0.0),
+        "add-object": lambda A, k: A.add(vector.obj(x=1.0 + k, y=2.0, z=-1.0 * k, t=20.0 + k)),
+        "rotate_axis": lambda A, k: A.rotate_axis(vector.obj(x=1.0, y=1.0 * k, z=2.0), 0.3 + 0.1 * k),
+        "to_Vector4D-kw": lambda A, k: A.to_Vector3D().to_Vector4D(t=5.0 + k),
+        "is_timelike": lambda A, k: A.is_timelike(10.0 * k),
+    }
+    work_items = [(bk, name) for bk in builders for name in ops]
+    mismatches = []
+    with warnings.catch_warnings(), numpy.errstate(all="ignore"):
+        warnings.simplefilter("ignore")
+
+        def one(bk, name, k):
+            try:
+                return result_digest(ops[name](builders[bk], k))
+            except Exception as ex:
+                return "raised:" + type(ex).__name__
+
+        alone = {(bk, name, k): one(bk, name, k) for bk, name in work_items for k in range(nthreads)}
+        barrier = threading.Barrier(nthreads)
+        old = sys.getswitchinterval()
+        sys.setswitchinterval(1e-6)
+
+        def work(k):
+            for bk, name in work_items:
+                barrier.wait()
+                for r in range(reps):
+                    d = one(bk, name, k)
+                    if d != alone[(bk, name, k)] and len(mismatches) < 50:
+                        mismatches.append({"thread": k, "call": "own-arguments:" + name, "backend": bk[0], "got": d[:200], "want": alone[(bk, name, k)][:200]})
+
+        try:
+            ths = [threading.Thread(target=work, args=(k,)) for k in range(nthreads)]
+            for t in ths:
+                t.start()
+            for t in ths:
+                t.join()
+        finally:
+            sys.setswitchinterval(old)
+    return mismatches, len(work_items), len(work_items) * nthreads * reps
 
 
 def validate(events):
